@@ -663,7 +663,8 @@ NP.finfo = _Finfo()
 @_ov
 def percentile(a, q, **k):
   if _isobj(a):
-    raise core.SymbolicRealisation('percentile of symbolic data (install a stub)')
+    from . import stubs
+    return stubs.percentile(a, q, **k)
   return _np.percentile(a, q, **k)
 
 
